@@ -440,6 +440,21 @@ func c07StaleHandle(c *run.Ctx, t c07Case, ref []c07Event, refTrunc bool) (fail 
 		if n >= c07MaxEvents {
 			return nil // not finished within the bound
 		}
+		// the context is closed only now, after the end (the usual `defer cancel()`, a late deadline): false for ever
+		if mode == 0 {
+			for i := 0; i < 2; i++ {
+				if v, ok := iter.Next(); ok {
+					return run.Failf("%q: a finished iterator returned (%v, true) (call %d after the end)", t.Src, v, i+1)
+				}
+			}
+			ctx.closed = true
+			for i := 0; i < 3; i++ {
+				if v, ok := iter.Next(); ok {
+					return run.Failf("%q: a finished iterator returned (%v, true) after its context was closed behind the end (call %d)", t.Src, v, i+1)
+				}
+			}
+			c.Count("contexts_closed_behind_the_end", 1)
+		}
 		// start two other runs, leave them pending, then advance the finished one again
 		b1, _ := c07Start(other, &flagCtx{})
 		b2, _ := c07Start(t, &flagCtx{})
